@@ -76,7 +76,16 @@ class C15Gen:
         model = sim.user["model"]
         w = self.cfg["client_weights"]
         client = rng.choices(["registrar"] + QUERY_CLIENTS + ["saboteur"], weights=[w["registrar"], w["calculator"], w["inspector"], w["validator"], w["saboteur"]])[0]
-        if self.n <= self.cfg.get("preamble", 0):
+        if getattr(self, "stale_probes", None) and rng.random() < 0.5:
+            # right after a Clear(): ask again about names that were valid before it
+            c, u = self.stale_probes.pop()
+            client = "saboteur"
+            op = self.qop(rng.choice([["db", "CheckCategoryUnit", [c, u]], ["S", 1.0, u, c], ["Q", u, c, None], ["db", "Convert", [c, u, u, 1.0]], ["dbl", "GetValidUnits", [c]]]), f="F1.lookahead")
+        elif getattr(self, "rebuild", 0) > 0 and rng.random() < 0.6:
+            self.rebuild -= 1
+            client = "registrar"
+            op = self.g_constructive(sim, model) or self.g_registration(sim, model)
+        elif self.n <= self.cfg.get("preamble", 0):
             client = "registrar"
             op = self.g_constructive(sim, model) or self.g_registration(sim, model)
         elif client == "registrar":
@@ -122,6 +131,16 @@ class C15Gen:
             if op is not None:
                 return op
         kind = rng.choices(["base", "unit", "cat", "clear"], weights=[w["base"], w["unit"], w["cat"], w["clear"]])[0]
+        if kind == "clear":
+            if self.n < 6:
+                kind = "cat"
+            else:
+                self.rebuild = rng.randint(2, 6)  # the database is rebuilt, not necessarily the same way
+                # generation guidance only (never an oracle): pairs the library has memoised a verdict for
+                pairs = sorted((c, u) for (c, u) in _db()._category_unit_valid if isinstance(c, str) and isinstance(u, str))
+                pairs += [(c, u) for c in self.cats if c in model.cats for u in self.registered_units(model, model.cats[c].get("type")) if model.cats[c].get("type") in self.T][:2]
+                rng.shuffle(pairs)
+                self.stale_probes = pairs[:3]
         return getattr(self.reg, "g_" + kind)(sim, model)
 
     def g_constructive(self, sim, model):
@@ -458,7 +477,7 @@ class C15:
             cfg["bad_rate"] = rng.choice([0.3, 0.6, 1.0])
             lo, hi = (10, 40) if tier == "quick" else (20, 100)
         cfg["n_steps"] = rng.randint(lo, hi)
-        cfg["weights"] = {"base": rng.choice([1, 2]), "unit": rng.choice([1, 2, 3]), "cat": rng.choice([2, 3, 5]), "clear": rng.choice([0, 0, 0, 0.15]) if world != "W-POSC" else 0, "user": 0}
+        cfg["weights"] = {"base": rng.choice([1, 2]), "unit": rng.choice([1, 2, 3]), "cat": rng.choice([2, 3, 5]), "clear": rng.choice([0, 0, 0.5, 1.5]) if world != "W-POSC" else 0, "user": 0}
         cfg["client_weights"] = {
             "registrar": rng.choice([1, 2, 3]),
             "calculator": rng.choice([0, 1, 2]),
